@@ -315,3 +315,58 @@ def collect_drains_to_terminate(facts, f):
                 return False
         return True
     return False
+
+
+@rule('C04', 'R8', 'job start-up / tear-down order: every block is initialised, the topology drops its own channel ends, workers are joined before the network threads')
+def c04_r8(ctx):
+    facts = ctx.facts
+    ba = facts.method('renoir::scheduler::Scheduler', 'build_all')
+    sym = q.sym(facts, ba)
+    fin = q.calls_suffix(ba, 'NetworkTopology::finalize')
+    drains = [(bi, t) for bi, t in ba.calls() if (t['callee'].get('path') or '').endswith('::drain') and 'block_init' in render(strip(sym.operand(t['args'][0])))]
+    inits = [(bi, t) for bi, t in ba.calls() if t['callee'].get('indirect') or (t['callee'].get('path') or '').startswith('std::ops::Fn')]
+    pushes = [(bi, t) for bi, t in ba.calls() if (t['callee'].get('path') or '').endswith('Vec::<T, A>::push') and f_local_ty(ba, t['args'][0]).find('JoinHandle') >= 0]
+    ctx.inst('build_all', {'finalize': [t['at'] for _, t in fin], 'block_init drain': [t['at'] for _, t in drains], 'init calls': len(inits), 'handle pushes': len(pushes)})
+    if not fin or not all(ba.dominates(fin[0][0], r) for r in ba.return_blocks()):
+        ctx.viol('%s|no-finalize' % ba.path, ba.at,
+                 'build_all can return without NetworkTopology::finalize(): the topology keeps its own sender clones alive, receivers never see '
+                 'their channels close and network threads never exit', None)
+    if not drains or not any('RangeFull' in g for _, t in drains for g in t['callee'].get('gargs', [])):
+        ctx.viol('%s|not-all-blocks' % ba.path, ba.at, 'build_all does not start every scheduled block (loop over block_init.drain(..))', None)
+    cyc = lambda b: any(b in ba.reachable_from(s) for s in ba.succ(b))
+    if not inits or not any(cyc(b) for b, _ in inits) or not pushes or not any(cyc(b) for b, _ in pushes):
+        ctx.viol('%s|handles' % ba.path, ba.at, 'build_all does not call every init function and keep its join handle', None)
+    for bi, t in pushes:
+        extra = [a for c in q.cond_of_block(facts, ba, bi) for a in c if not (a[0] == 'is' and 'Iterator::next' in a[1])]
+        if extra:
+            ctx.viol('%s|conditional-handle' % ba.path, t['at'], 'a worker handle is kept only under %s: other workers would never be joined' % extra, None)
+    if fin and inits and not all(ba.dominates(b, fin[0][0]) or not cyc(b) for b, _ in inits):
+        pass
+    sb = facts.method('renoir::scheduler::Scheduler', 'start_blocking')
+    joins = [(bi, t) for bi, t in sb.calls() if (t['callee'].get('path') or '') == 'std::thread::JoinHandle::<T>::join']
+    stop = q.calls_suffix(sb, 'NetworkTopology::stop_and_wait')
+    ctx.inst('start_blocking', {'worker joins': [t['at'] for _, t in joins], 'stop_and_wait': [t['at'] for _, t in stop]})
+    if not joins or not stop:
+        ctx.viol('%s|no-join' % sb.path, sb.at, 'start_blocking must join the workers and then wait for the network threads', None)
+    else:
+        if not any(b in sb.reachable_from(s) for b, _ in joins for s in sb.succ(b)):
+            ctx.viol('%s|join-not-all' % sb.path, joins[0][1]['at'], 'start_blocking joins a single worker, not all of them', None)
+        if stop[0][0] not in sb.reachable_from(joins[0][0]):
+            ctx.viol('%s|stop-before-join' % sb.path, stop[0][1]['at'], 'the network threads are awaited before the workers are joined', None)
+        if not all(sb.dominates(stop[0][0], r) for r in sb.return_blocks()):
+            ctx.viol('%s|no-stop' % sb.path, sb.at, 'start_blocking can return without waiting for the network threads', None)
+    sw = facts.method('renoir::network::topology::NetworkTopology', 'stop_and_wait')
+    j2 = [(bi, t) for bi, t in sw.calls() if (t['callee'].get('path') or '') == 'std::thread::JoinHandle::<T>::join']
+    if not j2 or not any(b in sw.reachable_from(s) for b, _ in j2 for s in sw.succ(b)):
+        ctx.viol('%s|not-all-threads' % sw.path, sw.at, 'stop_and_wait does not join every network thread', None)
+    fz = facts.method('renoir::network::topology::NetworkTopology', 'finalize')
+    takes = sorted({render(strip(q.sym(facts, fz).operand(t['args'][0]))) for bi, t in fz.calls() if (t['callee'].get('path') or '').endswith('Option::<T>::take')})
+    ctx.inst('NetworkTopology::finalize', {'dropped': takes})
+    for need in ('self.receivers', 'self.senders', 'self.multiplexers', 'self.demultiplexers'):
+        if need not in takes:
+            ctx.viol('%s|keeps|%s' % (fz.path, need), fz.at, 'finalize() no longer drops %s: a dangling channel end keeps a link open forever' % need, None)
+
+
+def f_local_ty(fn, op):
+    loc = q.base_local(fn, op)
+    return fn.locals[loc]['ty'] if loc is not None else ''
